@@ -1,1 +1,386 @@
 //! Kani harnesses compiled as a child module of rustzx-core/src/zx/keys.rs (cfg(kani) only).
+//! Property C17: input ports reflect exactly the controls held, for every event history.
+//! Method: abstraction function alpha from "sets of held controls" to the controller's matrices;
+//! one symbolic event from an arbitrary alpha-consistent state must give alpha(H xor e) (inductive).
+#![allow(dead_code)]
+use super::*;
+use crate::verif_hooks::FbCtx;
+use crate::zx::controller::verif_hooks as ch;
+use crate::zx::joy::kempston::KempstonKey;
+use crate::zx::joy::sinclair::{SinclairJoyNum, SinclairKey};
+use crate::zx::machine::ZXMachine;
+use crate::zx::mouse::kempston::{KempstonMouseButton, KempstonMouseWheelDirection};
+
+/// The 40 keys in Spectrum matrix order: index = 5*row + bit, rows FEFE, FDFE, FBFE, F7FE, EFFE, DFFE, BFFE, 7FFE
+/// (CAPS SHIFT Z X C V / A S D F G / Q W E R T / 1 2 3 4 5 / 0 9 8 7 6 / P O I U Y / ENTER L K J H / SPACE SYM M N B)
+pub(crate) fn key_from_index(i: u8) -> ZXKey {
+    use ZXKey::*;
+    match i {
+        0 => Shift, 1 => Z, 2 => X, 3 => C, 4 => V,
+        5 => A, 6 => S, 7 => D, 8 => F, 9 => G,
+        10 => Q, 11 => W, 12 => E, 13 => R, 14 => T,
+        15 => N1, 16 => N2, 17 => N3, 18 => N4, 19 => N5,
+        20 => N0, 21 => N9, 22 => N8, 23 => N7, 24 => N6,
+        25 => P, 26 => O, 27 => I, 28 => U, 29 => Y,
+        30 => Enter, 31 => L, 32 => K, 33 => J, 34 => H,
+        35 => Space, 36 => SymShift, 37 => M, 38 => N,
+        _ => B,
+    }
+}
+
+/// digit key n -> matrix index
+fn digit_index(n: u8) -> u8 {
+    match n {
+        1 => 15, 2 => 16, 3 => 17, 4 => 18, 5 => 19,
+        0 => 20, 9 => 21, 8 => 22, 7 => 23, _ => 24, // 6
+    }
+}
+
+fn compound_from_index(i: u8) -> CompoundKey {
+    match i {
+        0 => CompoundKey::ArrowLeft,
+        1 => CompoundKey::ArrowRight,
+        2 => CompoundKey::ArrowUp,
+        3 => CompoundKey::ArrowDown,
+        4 => CompoundKey::CapsLock,
+        5 => CompoundKey::Delete,
+        _ => CompoundKey::Break,
+    }
+}
+
+/// Spectrum convention: cursor keys are CAPS SHIFT + 5/8/7/6, CAPS LOCK = CS+2, DELETE = CS+0, BREAK = CS+SPACE
+fn compound_primary_index(i: u8) -> u8 {
+    match i {
+        0 => digit_index(5),
+        1 => digit_index(8),
+        2 => digit_index(7),
+        3 => digit_index(6),
+        4 => digit_index(2),
+        5 => digit_index(0),
+        _ => 35,
+    }
+}
+
+/// alpha for one matrix: bit clear where held
+fn alpha_rows(held: &[u8; 8]) -> [u8; 8] {
+    let mut out = [0xFFu8; 8];
+    let mut r = 0;
+    while r < 8 {
+        out[r] = 0xFF & !(held[r] & 0x1F);
+        r += 1;
+    }
+    out
+}
+
+fn any_held() -> [u8; 8] {
+    let mut h = [0u8; 8];
+    let mut r = 0;
+    while r < 8 {
+        let v: u8 = kani::any();
+        h[r] = v & 0x1F;
+        r += 1;
+    }
+    h
+}
+
+fn rows_eq(a: &[u8; 8], b: &[u8; 8]) -> bool {
+    let mut ok = true;
+    let mut r = 0;
+    while r < 8 {
+        ok &= a[r] == b[r];
+        r += 1;
+    }
+    ok
+}
+
+// @harness
+// @prop C17
+// @tier quick
+// @timeout 600
+// @fn ZXController::send_key; ZXKey::row_id; ZXKey::mask; ZXKey::half_port; ZXController::new (initial state)
+// @sym set of held keys (40 bits), one press/release event on any of the 40 keys, held sets of the two other sources
+// @assert the plain-key matrix after the event is alpha(held xor event): bit (row,bit) of the Spectrum layout is 0 exactly for held keys, bits 5-7 stay 1; the compound and Sinclair matrices are untouched; a fresh controller is alpha(empty)
+// @bound one event from an arbitrary consistent state (inductive over histories)
+#[kani::proof]
+#[kani::unwind(9)]
+fn c17_plain_key_event() {
+    let mut c = ch::mk_controller(ZXMachine::Sinclair48K, FbCtx { wx: 0, wy: 0 }, false, false);
+    let empty = [0u8; 8];
+    kani::assert(rows_eq(&c.keyboard, &alpha_rows(&empty)) && rows_eq(&c.keyboard_extended, &alpha_rows(&empty)) && rows_eq(&c.keyboard_sinclair, &alpha_rows(&empty)) && c.caps_shift_modifier_mask == 0, "c17.init.nothing_held");
+    let mut held = any_held();
+    let other1 = alpha_rows(&any_held());
+    let other2 = alpha_rows(&any_held());
+    c.keyboard = alpha_rows(&held);
+    c.keyboard_extended = other1;
+    c.keyboard_sinclair = other2;
+    let k: u8 = kani::any();
+    kani::assume(k < 40);
+    let pressed: bool = kani::any();
+    c.send_key(key_from_index(k), pressed);
+    let (row, bit) = ((k / 5) as usize, k % 5);
+    if pressed {
+        held[row] |= 1 << bit;
+    } else {
+        held[row] &= !(1 << bit);
+    }
+    kani::assert(rows_eq(&c.keyboard, &alpha_rows(&held)), "c17.key.matrix_is_alpha_of_held_set");
+    kani::assert(rows_eq(&c.keyboard_extended, &other1) && rows_eq(&c.keyboard_sinclair, &other2), "c17.key.other_sources_untouched");
+    kani::cover!(pressed && k == 39, "press B");
+    kani::cover!(!pressed && k == 0 && held[0] != 0, "release CAPS SHIFT while others in the row stay held");
+}
+
+fn alpha_compound(hc: u8) -> [u8; 8] {
+    let mut held = [0u8; 8];
+    let mut i = 0u8;
+    while i < 7 {
+        if hc & (1 << i) != 0 {
+            let p = compound_primary_index(i);
+            held[(p / 5) as usize] |= 1 << (p % 5);
+        }
+        i += 1;
+    }
+    if hc != 0 {
+        held[0] |= 1; // CAPS SHIFT
+    }
+    alpha_rows(&held)
+}
+
+// @harness
+// @prop C17
+// @tier quick
+// @timeout 600
+// @fn ZXController::send_compound_key; CompoundKey::modifier_mask; CompoundKey::modifier_key; CompoundKey::primary_key
+// @sym set of held compound keys (7 bits), one press/release event on any compound key, other sources
+// @assert the compound matrix after the event holds CAPS SHIFT plus the primary key of every held compound key (cursor = CS+5/8/7/6, CAPS LOCK = CS+2, DELETE = CS+0, BREAK = CS+SPACE); CAPS SHIFT is released only with the last held compound key; other sources untouched
+// @bound one event from an arbitrary consistent state (inductive)
+#[kani::proof]
+#[kani::unwind(9)]
+fn c17_compound_key_event() {
+    let mut c = ch::mk_controller(ZXMachine::Sinclair48K, FbCtx { wx: 0, wy: 0 }, false, false);
+    let mut hc: u8 = kani::any();
+    kani::assume(hc < 0x80);
+    let other1 = alpha_rows(&any_held());
+    let other2 = alpha_rows(&any_held());
+    c.keyboard = other1;
+    c.keyboard_sinclair = other2;
+    c.keyboard_extended = alpha_compound(hc);
+    c.caps_shift_modifier_mask = hc as u32;
+    let k: u8 = kani::any();
+    kani::assume(k < 7);
+    let pressed: bool = kani::any();
+    c.send_compound_key(compound_from_index(k), pressed);
+    if pressed {
+        hc |= 1 << k;
+    } else {
+        hc &= !(1 << k);
+    }
+    kani::assert(rows_eq(&c.keyboard_extended, &alpha_compound(hc)), "c17.compound.matrix_is_alpha_of_held_set");
+    kani::assert(c.caps_shift_modifier_mask == hc as u32, "c17.compound.modifier_bookkeeping");
+    kani::assert(rows_eq(&c.keyboard, &other1) && rows_eq(&c.keyboard_sinclair, &other2), "c17.compound.other_sources_untouched");
+    kani::cover!(!pressed && hc != 0, "release one compound key while another keeps CAPS SHIFT down");
+    kani::cover!(!pressed && hc == 0, "release the last compound key");
+    kani::cover!(pressed && k == 6, "BREAK");
+}
+
+/// Sinclair control index: 0..4 = joystick 1 left,right,up,down,fire; 5..9 = joystick 2
+fn sinclair_from_index(i: u8) -> (SinclairJoyNum, SinclairKey) {
+    let num = if i < 5 { SinclairJoyNum::Fist } else { SinclairJoyNum::Second };
+    let key = match i % 5 {
+        0 => SinclairKey::Left,
+        1 => SinclairKey::Right,
+        2 => SinclairKey::Up,
+        3 => SinclairKey::Down,
+        _ => SinclairKey::Fire,
+    };
+    (num, key)
+}
+
+/// statement: joystick 1 is keys 6,7,8,9,0 and joystick 2 keys 1,2,3,4,5 for left,right,down,up,fire
+fn sinclair_key_index(i: u8) -> u8 {
+    match i {
+        0 => digit_index(6),
+        1 => digit_index(7),
+        2 => digit_index(9), // up
+        3 => digit_index(8), // down
+        4 => digit_index(0),
+        5 => digit_index(1),
+        6 => digit_index(2),
+        7 => digit_index(4), // up
+        8 => digit_index(3), // down
+        _ => digit_index(5),
+    }
+}
+
+fn alpha_sinclair(hs: u16) -> [u8; 8] {
+    let mut held = [0u8; 8];
+    let mut i = 0u8;
+    while i < 10 {
+        if hs & (1 << i) != 0 {
+            let p = sinclair_key_index(i);
+            held[(p / 5) as usize] |= 1 << (p % 5);
+        }
+        i += 1;
+    }
+    alpha_rows(&held)
+}
+
+const SINCLAIR2_DOWN: u8 = 8;
+
+fn sinclair_step(exclude_known: bool, only_known: bool) {
+    let mut c = ch::mk_controller(ZXMachine::Sinclair48K, FbCtx { wx: 0, wy: 0 }, false, false);
+    let mut hs: u16 = kani::any();
+    kani::assume(hs < 0x400);
+    let k: u8 = kani::any();
+    kani::assume(k < 10);
+    if exclude_known {
+        // KF-C17-1: joystick 2 "down" is wired to key 2 instead of key 3
+        kani::assume(k != SINCLAIR2_DOWN && hs & (1 << SINCLAIR2_DOWN) == 0);
+    }
+    if only_known {
+        kani::assume(k == SINCLAIR2_DOWN || hs & (1 << SINCLAIR2_DOWN) != 0);
+    }
+    let other1 = alpha_rows(&any_held());
+    let other2 = alpha_rows(&any_held());
+    c.keyboard = other1;
+    c.keyboard_extended = other2;
+    c.keyboard_sinclair = alpha_sinclair(hs);
+    let pressed: bool = kani::any();
+    let (num, key) = sinclair_from_index(k);
+    c.send_sinclair_key(num, key, pressed);
+    if pressed {
+        hs |= 1 << k;
+    } else {
+        hs &= !(1 << k);
+    }
+    kani::assert(rows_eq(&c.keyboard_sinclair, &alpha_sinclair(hs)), "c17.sinclair.matrix_is_alpha_of_held_set");
+    kani::assert(rows_eq(&c.keyboard, &other1) && rows_eq(&c.keyboard_extended, &other2), "c17.sinclair.other_sources_untouched");
+    kani::cover!(pressed && k == 9, "joystick 2 fire");
+    kani::cover!(!pressed && hs != 0, "release one control while others stay held");
+}
+
+// @harness
+// @prop C17
+// @tier quick
+// @timeout 600
+// @fn ZXController::send_sinclair_key; sinclair_event_to_zx_key
+// @sym set of held Sinclair controls (10 bits), one press/release event, other sources
+// @assert Sinclair joystick 1 is keys 6,7,8,9,0 and joystick 2 keys 1,2,3,4,5 for left,right,down,up,fire; after the event the Sinclair matrix is alpha(held xor event); a release never releases a key another control still holds; other sources untouched
+// @assume joystick-2 "down" neither held nor the event (known finding KF-C17-1, witnessed by c17_sinclair_joy2_down_known)
+// @bound one event from an arbitrary consistent state (inductive)
+#[kani::proof]
+#[kani::unwind(11)]
+fn c17_sinclair_event() {
+    sinclair_step(true, false);
+}
+
+// @harness
+// @prop C17
+// @tier quick
+// @expect known:KF-C17-1
+// @timeout 600
+// @fn ZXController::send_sinclair_key; sinclair_event_to_zx_key
+// @sym as c17_sinclair_event, restricted to states/events involving joystick-2 "down"
+// @assert as c17_sinclair_event
+// @bound witness of the known finding: expected to FAIL while the defect is present
+#[kani::proof]
+#[kani::unwind(11)]
+fn c17_sinclair_joy2_down_known() {
+    sinclair_step(false, true);
+}
+
+fn kempston_from_index(i: u8) -> (KempstonKey, u8) {
+    match i {
+        0 => (KempstonKey::Right, 0x01),
+        1 => (KempstonKey::Left, 0x02),
+        2 => (KempstonKey::Down, 0x04),
+        3 => (KempstonKey::Up, 0x08),
+        4 => (KempstonKey::Fire, 0x10),
+        5 => (KempstonKey::Ext1, 0x20),
+        6 => (KempstonKey::Ext2, 0x40),
+        _ => (KempstonKey::Ext3, 0x80),
+    }
+}
+
+// @harness
+// @prop C17
+// @tier quick
+// @timeout 600
+// @fn Emulator::send_kempston_key; KempstonJoy::key; KempstonJoy::read; Emulator::send_mouse_button; Emulator::send_mouse_wheel; Emulator::send_mouse_pos_diff; KempstonMouse::send_button; KempstonMouse::send_wheel; KempstonMouse::send_pos_diff
+// @sym held Kempston bits, one joystick event; mouse port bytes, one button event, one wheel event, one motion event with arbitrary i8 deltas
+// @assert the Kempston port is the OR of held right/left/down/up/fire/extra bits (0x01,0x02,0x04,0x08,0x10,0x20..0x80); mouse buttons are active-low in bits 0-3 (left,right,middle,additional), the wheel is a 4-bit counter in bits 4-7 stepping +-1 mod 16, X adds the horizontal and Y subtracts the vertical delta modulo 256; each event leaves the other fields alone
+// @bound one event of each kind from an arbitrary state (inductive)
+#[kani::proof]
+fn c17_kempston_joystick_and_mouse_events() {
+    let mut s = crate::emulator::verif_hooks::mk_settings(ZXMachine::Sinclair48K);
+    s.kempston_enabled = true;
+    s.mouse_enabled = true;
+    let mut e = crate::emulator::verif_hooks::mk_emulator_with(s, FbCtx { wx: 0, wy: 0 });
+    {
+        let c = crate::emulator::verif_hooks::controller(&mut e);
+        kani::assert(c.kempston.as_ref().unwrap().read() == 0, "c17.init.joystick_idle");
+        let ms = c.mouse.as_ref().unwrap();
+        kani::assert(ms.buttons_port & 0x0F == 0x0F, "c17.init.mouse_buttons_released");
+    }
+    // joystick
+    let mut held: u8 = kani::any();
+    {
+        let c = crate::emulator::verif_hooks::controller(&mut e);
+        crate::zx::joy::kempston::verif_hooks::set_state(c.kempston.as_mut().unwrap(), held);
+    }
+    let k: u8 = kani::any();
+    kani::assume(k < 8);
+    let pressed: bool = kani::any();
+    let (key, bit) = kempston_from_index(k);
+    e.send_kempston_key(key, pressed);
+    if pressed {
+        held |= bit;
+    } else {
+        held &= !bit;
+    }
+    let (b0, x0, y0): (u8, u8, u8) = (kani::any(), kani::any(), kani::any());
+    {
+        let c = crate::emulator::verif_hooks::controller(&mut e);
+        kani::assert(c.kempston.as_ref().unwrap().read() == held, "c17.kempston.port_is_or_of_held_bits");
+        let ms = c.mouse.as_mut().unwrap();
+        ms.buttons_port = b0;
+        ms.x_pos_port = x0;
+        ms.y_pos_port = y0;
+    }
+    // mouse button
+    let bsel: u8 = kani::any();
+    kani::assume(bsel < 4);
+    let (button, bbit) = match bsel {
+        0 => (KempstonMouseButton::Left, 0x01u8),
+        1 => (KempstonMouseButton::Right, 0x02),
+        2 => (KempstonMouseButton::Middle, 0x04),
+        _ => (KempstonMouseButton::Additional, 0x08),
+    };
+    let bpressed: bool = kani::any();
+    e.send_mouse_button(button, bpressed);
+    let b1 = if bpressed { b0 & !bbit } else { b0 | bbit };
+    {
+        let ms = crate::emulator::verif_hooks::controller(&mut e).mouse.as_ref().unwrap();
+        kani::assert(ms.buttons_port == b1 && ms.x_pos_port == x0 && ms.y_pos_port == y0, "c17.mouse.button_active_low");
+    }
+    // wheel
+    let up: bool = kani::any();
+    e.send_mouse_wheel(if up { KempstonMouseWheelDirection::Up } else { KempstonMouseWheelDirection::Down });
+    let w = (b1 >> 4).wrapping_add(if up { 1 } else { 15 }) & 0x0F;
+    let b2 = (b1 & 0x0F) | (w << 4);
+    {
+        let ms = crate::emulator::verif_hooks::controller(&mut e).mouse.as_ref().unwrap();
+        kani::assert(ms.buttons_port == b2 && ms.x_pos_port == x0 && ms.y_pos_port == y0, "c17.mouse.wheel_4bit_counter");
+    }
+    // motion
+    let (dx, dy): (i8, i8) = (kani::any(), kani::any());
+    e.send_mouse_pos_diff(dx, dy);
+    {
+        let ms = crate::emulator::verif_hooks::controller(&mut e).mouse.as_ref().unwrap();
+        kani::assert(ms.x_pos_port == x0.wrapping_add(dx as u8), "c17.mouse.x_adds_delta_mod_256");
+        kani::assert(ms.y_pos_port == y0.wrapping_sub(dy as u8), "c17.mouse.y_subtracts_delta_mod_256");
+        kani::assert(ms.buttons_port == b2, "c17.mouse.motion_leaves_buttons");
+    }
+    kani::cover!(dx == -128 && dy == -128 && x0 == 5, "extreme deltas");
+    kani::cover!(up && b1 >> 4 == 15, "wheel wraps upward");
+    kani::cover!(!pressed && held != 0, "joystick release keeps other bits");
+}
